@@ -120,6 +120,19 @@ CHECKS = {
             'KNOWN-FINDING',
             'deterministic simulation: seeded configuration/history/fault '
             'search with a reference execution on a fresh connection'),
+    'C03': ('wire', 'exploration',
+            'narrow claim (transport seam only): every request that reaches '
+            'the simulated socket from seeded operation programs with '
+            'adversarial argument strings is checked for UTF-8, XML 1.0 '
+            'well-formedness, DTD validity (lxml + DSP0203 DTD), '
+            'Content-Length and agreement of CIMMethod/CIMObject headers '
+            'with the body; listener responses are validated in C17',
+            'tocimxml()/tocimxmlstr() of arbitrary objects is a pure '
+            'function and not claimed; no schedule or fault is involved '
+            '(weakest fit of the claimed properties); leading/trailing '
+            'blanks of header values are not significant in HTTP',
+            'deterministic simulation (degenerate): seeded operation '
+            'programs observed at the simulated transport, DTD oracle'),
 }
 
 ENGINES = [
